@@ -22,7 +22,7 @@ from harness.common.tlc import MachineryError
 SPEC = os.path.join(tlc.SPECS, "config")
 
 SPELLED_GETS = [["p-q"], ["p_q"], ["r"], ["device"], ["m"], ["m", "x-y"], ["m", "x_y"], ["m", "z"],
-                ["m", "n"], ["m", "n", "w-v"], ["m", "n", "w_v"], ["m", "q"], ["zz"]]
+                ["m", "n"], ["m", "n", "w-v"], ["m", "n", "w_v"], ["m", "q"], ["zz"], ["g-h"], ["g_h", "z"], ["g-h", "r"]]
 BAD_DEVICES = ["cuda", "cuda:0", "cuda:7", "gpu", "GPU", "mps", "tpu", "", 0, 3, -1, 1.5,
                "cuda:x", "xpu:0"]
 _SENT = object()
@@ -225,6 +225,21 @@ def check(rep, tier, seed):
         if not scripts:
             raise MachineryError("no scripts generated")
         rep.note("exhaustive_scripts", {"depth": depth, "count": len(scripts)})
+        # focused three-step scripts composed from the model's own events: defaults registered, a value set, refresh
+        # (every default layer x every single assignment), so that "refresh restores exactly the accumulated
+        # defaults" is exercised for every (default path, set path) pair also in the quick tier
+        uniq = {}
+        for sc in scripts:
+            for e in sc:
+                uniq.setdefault(json.dumps(e, sort_keys=True), e)
+        evs = list(uniq.values())
+        U = [e for e in evs if e["op"] == "update_defaults"]
+        S = [e for e in evs if e["op"] == "set" and len(e["as"]) == 1]
+        R = [e for e in evs if e["op"] == "refresh"][:1]
+        focused = [[u, s_] + R for u in U for s_ in S] if R else []
+        focused += [[u, s_] + R + [u2] + R for u in U[:3] for s_ in S[::3] for u2 in U[-2:]] if R else []
+        rep.note("focused_scripts", len(focused))
+        scripts = scripts + focused
         # simulated long walks
         nsim = 150 if quick else 1500
         scfg = tlc.cfg_variant(os.path.join(SPEC, "ConfigGEN.cfg"), tmp, "sim.cfg",
